@@ -1,6 +1,12 @@
 (* C04 — shape of the generated cases and the two executable verdicts. No proofs. *)
 From VLib Require Import CaseLib.
 From C04 Require Import Model.
+(* gen-* cases (validation of the translator): required, not imported (GoSem has its own Panic) *)
+From VLib Require GoSem.
+From C04 Require GenCase.
+Notation GVal := GoSem.GVal.
+Notation GPanic := GoSem.GPanic.
+Notation GFuel := GoSem.GFuel.
 Open Scope N_scope.
 
 Inductive case :=
@@ -28,7 +34,10 @@ Inductive case :=
 (* activeFetchIndex.GetDocPos with a snapshot of k block offsets and the given DocsPositions *)
 | CActivePos (k : N) (stored : list (id * N)) (req : list id) (impl : list N)
 (* sealedFetchIndex.getDocPosByLIDs over position blocks of ipb entries holding ptab; None = panic *)
-| CSealedPos (g : cfg) (ptab lids : list N) (impl : option (list N)).
+| CSealedPos (g : cfg) (ptab lids : list N) (impl : option (list N))
+(* gen-<func>: the REAL Go function number fn (GenCase.gen_eval) was called on args and returned impl (or
+   panicked); the model side is the definition GENERATED from the Go source by go2coq (Gen.v) *)
+| CGen (fn : N) (args : list (list Z)) (impl : GoSem.gres).
 
 Definition body_eqb (a b : body) : bool := (fst a =? fst b) && (snd a =? snd b).
 Definition sent_eqb (a b : id * option body) : bool :=
@@ -90,6 +99,7 @@ Definition case_agrees (c : case) : bool :=
       | Panic, None => true
       | _, _ => false
       end
+  | CGen fn args impl => GoSem.gres_eqb (GenCase.gen_eval fn args) impl
   end.
 
 (* ---- the property itself, evaluated on the implementation's output, independent of the model's algorithm:
@@ -243,6 +253,7 @@ Definition case_spec_ok (c : case) : bool :=
            | None => false
            end
       else true
+  | CGen _ _ _ => true   (* translator validation: correspondence only *)
   end.
 
 Definition diff_indices (l : list case) : list nat := bad_indices (fun c => negb (case_agrees c)) l.
